@@ -495,7 +495,7 @@ PROPS = {
     "C02": {"run": c02, "level": "exploration"},
     "C03": {"run": simple, "level": "exploration"},
     "C04": {"run": c04, "level": "exploration"},
-    "C05": {"run": simple, "level": "exploration"},
+    "C05": {"run": lambda ctx: ctx.chk.merge([ctx.harness(timeout=10800 if ctx.tier == "thorough" else 3600)]), "level": "exploration"},
     "C06": {"run": simple, "level": "exploration"},
     "C07": {"run": simple, "level": "exploration"},
     "C08": {"run": simple, "level": "exploration"},
